@@ -28,6 +28,7 @@ type c19Cfg struct {
 	C       int
 	R, W    int // readers, writers
 	Menu    int // which set of entry points the threads run
+	WW      int `json:"ww,omitempty"` // frames per writer window (0: 2)
 	Bound   int
 	Partial bool // readers only: the shared buffer's last frame is partly filled (C-1 samples appended after 5 frames)
 	Frames  int  // frames of the shared buffer (0: 6)
@@ -68,11 +69,18 @@ type c19H struct {
 
 func (h *c19H) Threads() int { return h.cfg.R + h.cfg.W }
 
+func (h *c19H) ww() int {
+	if h.cfg.WW > 0 {
+		return h.cfg.WW
+	}
+	return 2
+}
+
 func (h *c19H) frames() int {
 	if h.cfg.Frames > 0 {
 		return h.cfg.Frames
 	}
-	if n := 2*h.cfg.W + 3; n > 6 {
+	if n := h.ww()*h.cfg.W + 3; n > 6 {
 		return n // at least 3 read-only frames in front of the writers' ranges
 	}
 	return 6
@@ -84,13 +92,13 @@ func (h *c19H) Init() {
 	poolctl.ResetSched()
 	h.stripes = make([]dyn.Sl, C)
 	for c := range h.stripes {
-		n := 3 // one frame more than a writer's window holds
+		n := h.ww() + 1 // one frame more than a writer's window holds
 		if c == C-1 {
-			n = 1 // short
+			n = h.ww() - 1 // short
 		}
 		h.stripes[c] = dyn.NewSl(h.t, n)
 		for k := 0; k < n; k++ {
-			h.stripes[c].Set(k, dyn.Tok(h.t, int64(50+2*k+c)))
+			h.stripes[c].Set(k, dyn.Tok(h.t, tk(int64(50+2*k+c))))
 		}
 	}
 	if h.cfg.Pooled {
@@ -145,7 +153,7 @@ func (h *c19H) Init() {
 	}
 	h.roEnd = c19Frames
 	if h.cfg.W > 0 {
-		h.roEnd = c19Frames - 2*h.cfg.W
+		h.roEnd = c19Frames - h.ww()*h.cfg.W
 	}
 	for i := range h.obs {
 		h.obs[i], h.step[i], h.fails[i] = 14695981039346656037, 0, nil
@@ -187,7 +195,7 @@ func (h *c19H) reader(id int) {
 		}
 		return h.parent.Slice(0, h.roEnd)
 	}
-	ops := [][]string{{"samples", "read", "slice", "conv0"}, {"rstriped", "channel", "conv1", "shape"}, {"conv2", "read", "channel", "samples"}}[h.cfg.Menu%3]
+	ops := [][]string{{"samples", "read", "slice", "conv0"}, {"rstriped", "channel", "conv1", "shape"}, {"conv2", "appendsrc", "channel", "samples"}}[h.cfg.Menu%3]
 	for k, op := range ops {
 		schedx.Point("reader " + op)
 		p := h.parent
@@ -240,6 +248,23 @@ func (h *c19H) reader(id int) {
 					h.mix(id, ch.Sample(i).B, uint64(ch.BufferIndex(c, i)))
 				}
 			}
+		case "appendsrc":
+			// the shared buffer as the source of Append (which leaves its source alone) into two buffers of the
+			// reader's own, one without any capacity (it has to grow) and one with room; the copies are then
+			// overwritten
+			src := ro()
+			if h.cfg.Partial {
+				src = p.Slice(0, full) // whole frames only
+			}
+			own := []dyn.Buf{dyn.Alloc(h.t, al(C, 0, 0)), dyn.Alloc(h.t, al(C, 0, full+1)), dyn.Alloc(h.t, al(C, 0, 1))}
+			for _, o := range own {
+				o.Append(src)
+				h.mix(id, uint64(o.Len()))
+				for i := 0; i < o.Len(); i++ {
+					h.mix(id, o.Sample(i).B)
+					o.SetSample(i, dyn.Tok(h.t, int64(id+3)))
+				}
+			}
 		case "conv0", "conv1", "conv2":
 			dt := c19Partner(h.t, int(op[4]-'0'))
 			dst := dyn.Alloc(dt, al(C, h.roEnd, h.roEnd))
@@ -255,9 +280,9 @@ func (h *c19H) reader(id int) {
 
 func (h *c19H) writer(id, wi int) {
 	C := h.cfg.C
-	lo := h.roEnd + 2*wi
+	lo := h.roEnd + h.ww()*wi
 	schedx.Point("writer slice")
-	w := h.parent.Slice(lo, lo+2)
+	w := h.parent.Slice(lo, lo+h.ww())
 	base := int64(40 + 20*wi)
 	ops := [][]string{{"set", "write", "convdst", "chanset"}, {"wstriped", "chanset", "set", "write"}, {"convdst", "wstriped", "write", "set"}}[h.cfg.Menu%3]
 	for k, op := range ops {
@@ -265,13 +290,13 @@ func (h *c19H) writer(id, wi int) {
 		switch op {
 		case "set":
 			for i := 0; i < w.Len(); i++ {
-				w.SetSample(i, dyn.Tok(h.t, base+int64(i)))
+				w.SetSample(i, dyn.Tok(h.t, tk(base+int64(i))))
 			}
 		case "write":
 			// (more data than the window holds: only the window may be written)
 			src := dyn.NewSl(h.t, w.Len()+C+1)
 			for i := 0; i < src.Len(); i++ {
-				src.Set(i, dyn.Tok(h.t, base+5+int64(i)))
+				src.Set(i, dyn.Tok(h.t, tk(base+5+int64(i))))
 			}
 			h.mix(id, uint64(dyn.Write(src, w)))
 		case "wstriped":
@@ -285,7 +310,7 @@ func (h *c19H) writer(id, wi int) {
 			}
 		case "convdst":
 			// conversion with the window as destination (same element type: identity-like)
-			src := dyn.Alloc(h.t, al(C, 3, 3)) // one frame more than the window holds
+			src := dyn.Alloc(h.t, al(C, h.ww()+1, h.ww()+1)) // one frame more than the window holds
 			for i := 0; i < src.Len(); i++ {
 				src.SetSample(i, dyn.Tok(h.t, int64(wi)))
 			}
@@ -441,6 +466,12 @@ func c19Configs(tier string, race bool) []c19Cfg {
 			r = append(r, c19Cfg{T: "int8", C: 2, R: R, W: 0, Menu: m, Bound: bound, Frames: 600})
 			r = append(r, c19Cfg{T: "uint16", C: 2, R: 1, W: 2, Menu: m, Bound: bound, Frames: 600})
 		}
+		// writers whose windows are long (8200 frames each: paths that tile or parallelise inside one call)
+		wb := bound
+		if wb < 0 || wb > 1 {
+			wb = 1
+		}
+		r = append(r, c19Cfg{T: "int16", C: 2, R: 1, W: 2, Menu: 1, Bound: wb, WW: 8200, Frames: 2*8200 + 4, FakeProcs: 4})
 	}
 	if race {
 		addWide(2, 2)
